@@ -255,6 +255,11 @@ pub struct Exec {
     pub thread_ok: Vec<u8>,
     pub steps: u64,
     pub error: Option<String>,
+    /// decision points: (thread whose access happened here, the other threads that had not finished)
+    pub points: Vec<(usize, Vec<usize>)>,
+    /// the prefix asked for a thread that ended without touching the word again: the execution is
+    /// equivalent to one in which that thread is not chosen there (explored separately)
+    pub redundant: bool,
 }
 
 fn read_word(shared: &Buf, width: u8) -> u64 {
@@ -296,7 +301,7 @@ fn classify(code: &[u8], modrm_is_mem_required: bool) -> Option<(&'static str, b
     }
     let cls = match (op, op2) {
         (0x0f, Some(0xc0 | 0xc1)) => "rmw",       // xadd
-        (0x0f, Some(0xb0 | 0xb1)) => "rmw",       // cmpxchg
+        (0x0f, Some(0xb0 | 0xb1)) => "cas",       // cmpxchg (writes only when the comparison succeeds)
         (0x0f, Some(0xb6 | 0xb7 | 0xbe | 0xbf)) => "load", // movzx / movsx
         (0x86 | 0x87, None) => {
             lock = true; // xchg with memory is always locked
@@ -321,9 +326,16 @@ fn classify(code: &[u8], modrm_is_mem_required: bool) -> Option<(&'static str, b
     Some((cls, lock))
 }
 
-/// One execution under the schedule `sched` (thread index per event). `counts`: events each
-/// thread is known to perform (None = calibration: run threads to completion in index order).
-pub fn execute(cfg: &Cfg, sched: Option<&[usize]>, counts: Option<&[usize]>) -> Exec {
+/// Upper bound on the accesses of one execution (a retry loop that never succeeds would otherwise
+/// make the execution space infinite).
+const MAX_EVENTS: usize = 64;
+
+/// One execution. `prefix[i]` = the thread that must perform the i-th access to the word; after
+/// the prefix the canonical choice is taken (the lowest-numbered thread that has not finished).
+/// Nothing about the subject is assumed beforehand: the number of accesses a thread performs may
+/// depend on the schedule (a compare-exchange loop retries), so the set of threads that can be
+/// chosen at a decision point is discovered while running and recorded in `points`.
+pub fn execute(cfg: &Cfg, prefix: &[usize]) -> Exec {
     let n = cfg.subs.len();
     let shared = Buf::new(64, 0);
     let mut initb = vec![0xa5u8; 64];
@@ -334,7 +346,7 @@ pub fn execute(cfg: &Cfg, sched: Option<&[usize]>, counts: Option<&[usize]>) -> 
     }
     shared.fill(&initb);
     let addr = shared.addr() + WORD_OFF as u64;
-    let mut ex = Exec { events: vec![], per_thread: vec![0; n], final_word: 0, neighbours_ok: true, thread_ok: vec![], steps: 0, error: None };
+    let mut ex = Exec { events: vec![], per_thread: vec![0; n], final_word: 0, neighbours_ok: true, thread_ok: vec![], steps: 0, error: None, points: vec![], redundant: false };
     let mut fds = [0i32; 2];
     unsafe {
         assert_eq!(libc::pipe(fds.as_mut_ptr()), 0);
@@ -416,7 +428,6 @@ pub fn execute(cfg: &Cfg, sched: Option<&[usize]>, counts: Option<&[usize]>) -> 
     let mut exited = vec![false; n];
     let mut done_marker = vec![false; n];
     let mut pos = 0usize;
-    let total: usize = counts.map_or(usize::MAX, |c| c.iter().sum());
     let run_to_exit = |t: usize, tid: i32, exited: &mut Vec<bool>, ex: &mut Exec| {
         unsafe { pt(libc::PTRACE_CONT, tid, 0, 0) };
         loop {
@@ -427,7 +438,7 @@ pub fn execute(cfg: &Cfg, sched: Option<&[usize]>, counts: Option<&[usize]>) -> 
             if libc::WIFSTOPPED(st) {
                 let sig = libc::WSTOPSIG(st);
                 if sig == libc::SIGTRAP && ((st >> 16) & 0xff) == 0 {
-                    ex.error = Some(format!("thread {t} touched the word after its last expected access"));
+                    ex.error = Some(format!("thread {t} touched the word after its execution had returned"));
                     unsafe { pt(libc::PTRACE_CONT, tid, 0, 0) };
                 } else {
                     let pass = if sig == libc::SIGUSR2 || sig == libc::SIGTRAP { 0 } else { sig };
@@ -438,24 +449,22 @@ pub fn execute(cfg: &Cfg, sched: Option<&[usize]>, counts: Option<&[usize]>) -> 
         exited[t] = true;
     };
     loop {
-        // choose the next thread
-        let t = match (sched, counts) {
-            (Some(s), Some(c)) => {
-                if pos >= s.len() || pos >= total {
-                    break;
-                }
-                let t = s[pos];
-                if ex.per_thread[t] >= c[t] {
-                    fail(&mut ex, "schedule asks a finished thread to run".into());
-                    break;
-                }
-                t
-            }
-            _ => match (0..n).find(|t| !exited[*t]) {
-                Some(t) => t,
-                None => break,
-            },
-        };
+        // choose the next thread: the prefix decides, then the lowest-numbered unfinished thread
+        let unfinished: Vec<usize> = (0..n).filter(|t| !exited[*t]).collect();
+        if unfinished.is_empty() {
+            break;
+        }
+        let forced = pos < prefix.len();
+        let t = if forced { prefix[pos] } else { unfinished[0] };
+        if t >= n || exited[t] {
+            // cannot happen for prefixes built from recorded decision points of a deterministic subject
+            fail(&mut ex, format!("schedule prefix {prefix:?} asks thread {t} to run at access {pos}, but it has finished (replay diverged)"));
+            break;
+        }
+        if pos >= MAX_EVENTS {
+            fail(&mut ex, format!("more than {MAX_EVENTS} accesses to the word in one execution (no progress?)"));
+            break;
+        }
         let tid = tids[t];
         // step until the next access event (or the done marker)
         let mut prev_rip = unsafe { pt(libc::PTRACE_PEEKUSER, tid, rip_offset(), 0) } as u64;
@@ -520,23 +529,21 @@ pub fn execute(cfg: &Cfg, sched: Option<&[usize]>, counts: Option<&[usize]>) -> 
             break;
         }
         if got_event {
+            ex.points.push((t, unfinished.iter().copied().filter(|x| *x != t).collect()));
             pos += 1;
-            if let Some(c) = counts {
-                if ex.per_thread[t] == c[t] {
-                    run_to_exit(t, tid, &mut exited, &mut ex);
-                }
+        } else {
+            // the thread reached its done marker (or exited) without touching the word again
+            if done_marker[t] && !exited[t] {
+                run_to_exit(t, tid, &mut exited, &mut ex);
             }
-        } else if done_marker[t] && !exited[t] {
-            // calibration (or a thread with fewer accesses than expected): let it finish
-            if counts.is_some() {
-                let msg = format!("thread {t} performed {} accesses, {} expected", ex.per_thread[t], counts.unwrap()[t]);
-                fail(&mut ex, msg);
+            exited[t] = true;
+            if forced {
+                ex.redundant = true;
                 break;
             }
-            run_to_exit(t, tid, &mut exited, &mut ex);
         }
     }
-    if ex.error.is_some() {
+    if ex.error.is_some() || ex.redundant {
         unsafe {
             libc::kill(pid, libc::SIGKILL);
         }
@@ -564,7 +571,7 @@ pub fn execute(cfg: &Cfg, sched: Option<&[usize]>, counts: Option<&[usize]>) -> 
     }
     if nr as usize == n {
         ex.thread_ok = rep[..n].to_vec();
-    } else if ex.error.is_none() {
+    } else if ex.error.is_none() && !ex.redundant {
         ex.error = Some("subject did not report".into());
     }
     ex.final_word = read_word(&shared, cfg.width);
@@ -580,27 +587,6 @@ fn mask(w: u8) -> u64 {
     } else {
         u64::MAX
     }
-}
-
-fn all_schedules(counts: &[usize]) -> Vec<Vec<usize>> {
-    fn rec(left: &mut Vec<usize>, cur: &mut Vec<usize>, out: &mut Vec<Vec<usize>>) {
-        if left.iter().all(|x| *x == 0) {
-            out.push(cur.clone());
-            return;
-        }
-        for t in 0..left.len() {
-            if left[t] > 0 {
-                left[t] -= 1;
-                cur.push(t);
-                rec(left, cur, out);
-                cur.pop();
-                left[t] += 1;
-            }
-        }
-    }
-    let mut out = vec![];
-    rec(&mut counts.to_vec(), &mut vec![], &mut out);
-    out
 }
 
 fn cfg_json(c: &Cfg) -> Value {
@@ -622,44 +608,68 @@ fn cfg_from_json(v: &Value) -> Cfg {
     }
 }
 
-/// Explore every schedule of one configuration. Returns (schedules, lost-update found).
+/// Explore every schedule of one configuration: stateless depth-first search, a fresh subject
+/// process per execution, prefix replay followed by the canonical choice; every alternative at every
+/// decision point beyond the prefix is pushed. Returns (complete schedules, lost-update found).
 pub fn explore(s: &mut Sink, cfg: &Cfg, report: bool) -> (usize, bool) {
     let class = format!("{}x{}", cfg.subs.iter().map(|x| x.name()).collect::<Vec<_>>().join("+"), cfg.k);
     let rp = cfg_json(cfg);
-    let cal = execute(cfg, None, None);
-    if let Some(e) = &cal.error {
-        s.violation(&format!("harness/sched/{class}"), format!("calibration run failed: {e}"), json!({"kind":"none"}));
-        return (0, false);
-    }
-    let counts = cal.per_thread.clone();
-    let scheds = all_schedules(&counts);
     let expect = cfg.addends.iter().fold(cfg.init, |a, x| a.wrapping_add(x.wrapping_mul(cfg.k as u64))) & mask(cfg.width);
     let mut lost = false;
     let mut first_trace: Option<Vec<Event>> = None;
-    for (si, sc) in scheds.iter().enumerate() {
-        let ex = execute(cfg, Some(sc), Some(&counts));
+    let mut first_counts: Vec<usize> = vec![];
+    let mut complete = 0usize;
+    let mut todo: Vec<Vec<usize>> = vec![vec![]];
+    let mut executions = 0usize;
+    while let Some(prefix) = todo.pop() {
+        executions += 1;
+        if executions > 20_000 {
+            s.violation(&format!("harness/sched/{class}"), "more than 20000 executions for one configuration".into(), json!({"kind":"none"}));
+            break;
+        }
+        let ex = execute(cfg, &prefix);
+        s.count("single_steps", ex.steps);
+        if let Some(e) = &ex.error {
+            if e.contains("no progress") {
+                let mut rps = rp.clone();
+                rps["schedule"] = json!(prefix);
+                s.violation(&format!("{class}/no-progress"), format!("schedule prefix {prefix:?}: {e}"), rps);
+            } else {
+                s.violation(&format!("harness/sched/{class}"), format!("schedule prefix {prefix:?}: {e}"), json!({"kind":"none"}));
+            }
+            continue;
+        }
+        if ex.redundant {
+            s.count("redundant_prefixes", 1);
+            continue;
+        }
+        let sc: Vec<usize> = ex.points.iter().map(|p| p.0).collect();
+        for i in prefix.len()..ex.points.len() {
+            for alt in &ex.points[i].1 {
+                let mut np = sc[..i].to_vec();
+                np.push(*alt);
+                todo.push(np);
+            }
+        }
+        complete += 1;
         s.count("evaluations", 1);
         s.count("states", sc.len() as u64 + 1);
         s.count("transitions", sc.len() as u64);
         s.count("traces_validated_against_impl", 1);
-        s.count("single_steps", ex.steps);
         let switches = sc.windows(2).filter(|w| w[0] != w[1]).count();
         if switches > 0 {
             s.count("distinct_nontrivial", 1);
         }
         let mut rps = rp.clone();
         rps["schedule"] = json!(sc);
-        if let Some(e) = &ex.error {
-            s.violation(&format!("harness/sched/{class}"), format!("schedule {sc:?}: {e}"), json!({"kind":"none"}));
-            continue;
-        }
-        if si == 0 {
+        if complete == 1 {
             // ownership of nondeterminism: the same schedule again must give the same trace
-            let ex2 = execute(cfg, Some(sc), Some(&counts));
-            if ex2.events != ex.events || ex2.final_word != ex.final_word {
+            let ex2 = execute(cfg, &sc);
+            if ex2.events != ex.events || ex2.final_word != ex.final_word || ex2.redundant {
                 s.violation("harness/sched/replay-diverged", format!("{class}: replaying schedule {sc:?} gave a different trace"), json!({"kind":"none"}));
             }
             first_trace = Some(ex.events.clone());
+            first_counts = ex.per_thread.clone();
         }
         if !report {
             if ex.final_word != expect {
@@ -679,18 +689,26 @@ pub fn explore(s: &mut Sink, cfg: &Cfg, report: bool) -> (usize, bool) {
         }
         for e in &ex.events {
             let who = cfg.subs[e.thread].name();
-            if e.class == "rmw" && !e.locked {
+            let sum = e.before.wrapping_add(cfg.addends[e.thread]) & mask(cfg.width);
+            if (e.class == "rmw" || e.class == "cas") && !e.locked {
                 s.violation(&format!("{who}/unlocked-read-modify-write"), format!("the add on the shared word is a read-modify-write instruction without a lock prefix (pointer register r{}, width {})", cfg.preg, cfg.width), rps.clone());
             }
-            if e.class == "rmw" && e.after != e.before.wrapping_add(cfg.addends[e.thread]) & mask(cfg.width) {
+            if e.class == "rmw" && e.after != sum {
                 s.violation(&format!("{who}/wrong-sum"), format!("an add changed the word from {:#x} to {:#x}, addend {:#x}", e.before, e.after, cfg.addends[e.thread]), rps.clone());
+            }
+            // a compare-exchange either fails (word unchanged) or installs old + addend
+            if e.class == "cas" && e.after != sum && e.after != e.before {
+                s.violation(&format!("{who}/wrong-sum"), format!("a compare-exchange changed the word from {:#x} to {:#x}, addend {:#x}", e.before, e.after, cfg.addends[e.thread]), rps.clone());
+            }
+            if e.class == "load" && e.after != e.before {
+                s.violation(&format!("harness/sched/{class}"), format!("a load changed the word ({:#x} -> {:#x})", e.before, e.after), json!({"kind":"none"}));
             }
         }
     }
     if report {
-        s.sample(&class, || json!({"config": rp, "accesses_per_thread": counts, "schedules": scheds.len(), "trace_of_first_schedule": first_trace.as_ref().map(|t| t.iter().map(|e| format!("T{} {}{} {:#x}->{:#x}", e.thread, if e.locked {"lock "} else {""}, e.class, e.before, e.after)).collect::<Vec<_>>())}));
+        s.sample(&class, || json!({"config": rp, "accesses_per_thread_in_first_schedule": first_counts, "schedules": complete, "executions": executions, "trace_of_first_schedule": first_trace.as_ref().map(|t| t.iter().map(|e| format!("T{} {}{} {:#x}->{:#x}", e.thread, if e.locked {"lock "} else {""}, e.class, e.before, e.after)).collect::<Vec<_>>())}));
     }
-    (scheds.len(), lost)
+    (complete, lost)
 }
 
 /// Sequential part: width x alignment x addend x engine (no scheduler).
@@ -965,7 +983,7 @@ pub fn run(s: &mut Sink) {
         "widths": [32, 64], "pointer_registers": "varied with the mix; plus every r0..r9 single-threaded", "range_placement": "word = whole range / first word / last word of the registered range",
         "sequential": "width x alignment 0..7 x 31 addends x pointer registers r1,r6,r7 x engine",
     }));
-    s.meta.insert("bound".into(), json!("all interleavings of the accesses to the shared word (decision points = accesses reported by hardware watch-points; one thread runs at a time, single-stepped between its ready and done markers)"));
+    s.meta.insert("bound".into(), json!("all interleavings of the accesses to the shared word: stateless depth-first search (fresh subject process per execution, prefix replay then canonical choice, every alternative thread at every decision point); decision points = accesses reported by hardware watch-points, discovered while running (the number of accesses of a thread may depend on the schedule); one thread runs at a time, single-stepped between its ready and done markers; at most 64 accesses per execution"));
     s.meta.insert("rule".into(), json!("evaluation = one complete execution of the subject under one schedule; states/transitions = scheduler states (event prefixes) and scheduling decisions; non-trivial = schedules with at least one context switch between two accesses; the first schedule of every configuration is replayed and must give the identical event trace"));
     s.meta.insert("assumptions".into(), json!(["sequentially consistent interleavings at shared-access granularity plus the rule that a read-modify-write on the word must carry a lock prefix; store-buffer effects are not modelled; x86-64 only"]));
     // self-test first (every shard): the explorer must find the lost update of a non-atomic subject
